@@ -1018,6 +1018,11 @@ class Interp:
                 r = BV([T(dd)] * 32); r.zero_iff = ('bits', d)
                 regs[i.id] = r
             return None
+        if name in self.P.defined and getattr(self, 'tag_consumer', None) is not None and any(isinstance(a, Tag) and a.kind in ('word', 'separator') for a in args):
+            # a library function that consumes an opaque string token (the phrase writer, whatever it is called): summarised by the harness
+            r = self.tag_consumer(self, st, args, i)
+            if i.d['bits']: regs[i.id] = r
+            return None
         if name in self.P.defined:
             g = self.P.defined[name]
             outs = self.run_function(g, args, st, depth + 1)
